@@ -4,18 +4,25 @@ use std::collections::BTreeMap;
 use pgp::armor::{self, ArmorCrc24Status, BlockType, Dearmor, DearmorOptions, PKCS1Type};
 use vh::*;
 
-struct Src(Vec<u8>);
+/// data plus a write pattern: the pieces it is written in and whether the
+/// writer is flushed after each piece (0 never, 1 after every piece, 2 after the first)
+struct Src(Vec<u8>, u64);
 impl pgp::ser::Serialize for Src {
     fn to_writer<W: std::io::Write>(&self, w: &mut W) -> pgp::errors::Result<()> {
         // deliver in uneven pieces, as real packet serialisers do
         let mut pos = 0;
-        let mut step = 1;
+        let mut step = (self.1 / 3 % 11) as usize + 1;
+        let flush_mode = self.1 % 3;
+        let mut first = true;
         while pos < self.0.len() {
             let e = (pos + step).min(self.0.len());
             w.write_all(&self.0[pos..e])?;
+            if flush_mode == 1 || (flush_mode == 2 && first) { w.flush()?; }
+            first = false;
             pos = e;
             step = step * 3 % 97 + 1;
         }
+        if flush_mode != 0 { w.flush()?; }
         Ok(())
     }
     fn write_len(&self) -> usize { self.0.len() }
@@ -61,10 +68,10 @@ fn show_h(h: &H) -> String {
     if v.is_empty() { "_".into() } else { v.join(",") }
 }
 
-fn lib_armor(t: T, h: &H, data: &[u8], ck: bool) -> Result<Vec<u8>, String> {
+fn lib_armor(t: T, h: &H, data: &[u8], ck: bool, pattern: u64) -> Result<Vec<u8>, String> {
     guarded(|| {
         let mut out = Vec::new();
-        armor::write(&Src(data.to_vec()), to_bt(t), &mut out, if h.is_empty() { None } else { Some(h) }, ck).map(|_| out).map_err(|e| e.to_string())
+        armor::write(&Src(data.to_vec(), pattern), to_bt(t), &mut out, if h.is_empty() { None } else { Some(h) }, ck).map(|_| out).map_err(|e| e.to_string())
     }).and_then(|r| r)
 }
 
@@ -99,9 +106,12 @@ impl Ctx {
     }
     /// writer = model; then every tolerated variant through the reader
     fn roundtrip(&mut self, t: T, h: &H, data: &[u8], ck: bool, cls: &str) {
-        let a = match lib_armor(t, h, data, ck) { Ok(a) => a, Err(e) => { self.out.case("armor", &[show_t(t), show_h(h), hx(data), (ck as u8).to_string()], &[], &e, Some(false), cls); return; } };
+        let pattern = self.rng.next();
+        let a = match lib_armor(t, h, data, ck, pattern) { Ok(a) => a, Err(e) => { self.out.case("armor", &[show_t(t), show_h(h), hx(data), (ck as u8).to_string()], &[], &e, Some(false), cls); return; } };
         // lines: at most 64 characters, crc correct: judged by the model's armor
-        self.out.case("armor", &[show_t(t), show_h(h), hx(data), (ck as u8).to_string()], &[], &hx(&a), None, cls);
+        self.out.case("armor", &[show_t(t), show_h(h), hx(data), (ck as u8).to_string()],
+            &["armor".into(), show_t(t), show_h(h), hx(data), (ck as u8).to_string(), pattern.to_string()], &hx(&a), Some(body_lines_ok(&a, ck)),
+            &format!("{cls}-w{}", pattern % 3));
         let want = |crc: &str| format!("OK {} {} {} {}", show_t(t), show_h(h), hx(data), crc);
         for check in [false, true] {
             let (src, reqs) = self.sched();
@@ -164,6 +174,25 @@ impl Ctx {
     }
 }
 
+/// the emitted body: lines of at most 64 base64 characters, all but the last
+/// exactly 64, none empty; then "=XXXX" when a checksum was asked for
+fn body_lines_ok(a: &[u8], ck: bool) -> bool {
+    let Ok(text) = std::str::from_utf8(a) else { return false; };
+    let Some(p) = text.find("\n\n") else { return false; };
+    let mut lines: Vec<&str> = text[p + 2..].split('\n').collect();
+    if lines.pop() != Some("") { return false; }
+    if !lines.pop().map(|l| l.starts_with("-----END ")).unwrap_or(false) { return false; }
+    if ck {
+        let Some(c) = lines.pop() else { return false; };
+        if c.len() != 5 || !c.starts_with('=') { return false; }
+    }
+    let n = lines.len();
+    lines.iter().enumerate().all(|(i, l)| {
+        !l.is_empty() && l.len() <= 64 && (i + 1 == n || l.len() == 64)
+            && l.bytes().all(|b| b.is_ascii_alphanumeric() || b == b'+' || b == b'/' || b == b'=')
+    })
+}
+
 fn find(h: &[u8], n: &[u8]) -> Option<usize> { h.windows(n.len()).position(|w| w == n) }
 fn rfind(h: &[u8], n: &[u8]) -> Option<usize> { h.windows(n.len()).rposition(|w| w == n) }
 
@@ -187,6 +216,17 @@ fn main() {
     let mut cx = Ctx { out: Out::new(), rng: Rng::new(cli.seed) };
     if cli.mode == "replay" {
         let a = &cli.rest;
+        if a[0] == "armor" {
+            let t = if let Some(r) = a[1].strip_prefix("mp:") { let v: Vec<usize> = r.split(':').map(|x| x.parse().unwrap()).collect(); T::Mp(v[0], v[1]) } else { T::Fixed(a[1][1..].parse().unwrap()) };
+            let mut h = H::new();
+            if a[2] != "_" { for kv in a[2].split(',') { let (k, v) = kv.split_once(':').unwrap(); h.entry(String::from_utf8(unhx(k)).unwrap()).or_default().push(String::from_utf8(unhx(v)).unwrap()); } }
+            let ck = a[4] == "1";
+            let r = lib_armor(t, &h, &unhx(&a[3]), ck, a.get(5).map(|s| s.parse().unwrap()).unwrap_or(0));
+            match r {
+                Ok(out) => cx.out.case("armor", &a[1..5].to_vec(), a, &hx(&out), Some(body_lines_ok(&out, ck)), "replay"),
+                Err(e) => cx.out.case("armor", &a[1..5].to_vec(), a, &e, Some(false), "replay"),
+            }
+        }
         if a[0] == "dearmor" {
             let p = |s: &str| -> Vec<usize> { if s == "_" { vec![] } else { s.split(',').map(|x| x.parse().unwrap()).collect() } };
             let imp = lib_dearmor(&unhx(&a[2]), a[1] == "1", &p(a.get(3).map(|s| s.as_str()).unwrap_or("_")), &p(a.get(4).map(|s| s.as_str()).unwrap_or("_")));
@@ -245,7 +285,7 @@ fn main() {
     // hostile: truncations and mutations of a valid block (no panic)
     let data = cx.rng.bytes(100);
     let mut h = H::new(); h.insert("Comment".into(), vec!["x".into()]);
-    let a = lib_armor(T::Fixed(3), &h, &data, true).unwrap();
+    let a = lib_armor(T::Fixed(3), &h, &data, true, 0).unwrap();
     for cut in 0..a.len() { cx.hostile(&a[..cut], "truncated"); }
     let nmut = if thorough { 20000 } else { 2000 };
     for _ in 0..nmut {
